@@ -23,6 +23,11 @@ Definition cut_ok (c : cfg) (x : st) (post : list lentry) (cid : N) (snap : snap
           In (LApp (BEv (s, j) id key tm)) pre)
     /\ (forall j t, (j < b s)%nat -> nth_error (items_of x s) j = Some (IWm t) -> In (LAct (s, j) (IWm t) true) pre).
 
+(* every delivered keyed event is pending in the batch or applied *)
+Definition cev_strong (x : st) : Prop :=
+  forall s j id key tm, nth_error (items_of x s) j = Some (IEv id key tm) ->
+      In (LApp (BEv (s, j) id key tm)) (log (dt x)) \/ In (BEv (s, j) id key tm) (batch (dt x)).
+
 Record Inv (c : cfg) (x : st) : Prop := mkInv {
   i_len_m : length (modes x) = n_senders c;
   i_len_s : length (sent x) = n_senders c;
@@ -33,7 +38,7 @@ Record Inv (c : cfg) (x : st) : Prop := mkInv {
                 /\ In (LAct (s, b) (IBar cur) true) (log (dt x));
   i_olog : forall e s j, In e (log (dt x)) -> entry_origin e = Some (s, j) -> (j < acted x s)%nat;
   i_obatch : forall b s j, In b (batch (dt x)) -> org b = (s, j) -> (j < acted x s)%nat;
-  i_cev : forall s j id key tm, stopped (dt x) = false -> nth_error (items_of x s) j = Some (IEv id key tm) ->
+  i_cev : forall s j id key tm, running x = true -> nth_error (items_of x s) j = Some (IEv id key tm) ->
       In (LApp (BEv (s, j) id key tm)) (log (dt x)) \/ In (BEv (s, j) id key tm) (batch (dt x));
   i_cwm : forall s j t, nth_error (items_of x s) j = Some (IWm t) -> In (LAct (s, j) (IWm t) true) (log (dt x));
   i_faith : forall s j id key tm,
@@ -101,7 +106,8 @@ Proof. intros H. apply nth_error_Some. congruence. Qed.
 
 Lemma Inv_gate c x s it x' : Inv c x -> step c x (Gate s it) = Some x' -> Inv c x'.
 Proof.
-  intros I H. cbn in H. destruct (nth_error (modes x) s) as [[| |]|] eqn:E; try discriminate.
+  intros I H. unfold step in H. destruct (failed x); [discriminate|].
+  destruct (nth_error (modes x) s) as [[| |]|] eqn:E; try discriminate.
   injection H as <-. unfold with_mode.
   pose proof (nth_error_lt _ _ _ E) as Hlt.
   apply Inv_modes; auto.
@@ -117,7 +123,8 @@ Qed.
 
 Lemma Inv_wake c x s x' : Inv c x -> step c x (Wake s) = Some x' -> Inv c x'.
 Proof.
-  intros I H. cbn in H. destruct (nth_error (modes x) s) as [[|g it|]|] eqn:E; try discriminate.
+  intros I H. unfold step in H. destruct (failed x); [discriminate|].
+  destruct (nth_error (modes x) s) as [[|g it|]|] eqn:E; try discriminate.
   destruct (g <? done x) eqn:G; [|discriminate]. injection H as <-. unfold with_mode.
   pose proof (nth_error_lt _ _ _ E) as Hlt. apply N.ltb_lt in G.
   apply Inv_modes; auto.
@@ -179,7 +186,7 @@ Proof.
     destruct (HE _ He) as [(w & ->)|(b & -> & Hb)]; [discriminate|]. cbn in Ho. injection Ho as Ho. eauto.
   - intros b s j Hb. eauto.
   - intros s j id key tm Hst Hn. rewrite L.
-    assert (Hst0 : stopped (dt x) = false) by (unfold stopped in *; rewrite <- Hact; exact Hst).
+    assert (Hst0 : running x = true) by (unfold running, stopped, failed in *; cbn [dt ckpt] in Hst; rewrite <- Hact; exact Hst).
     destruct (i_cev0 _ _ _ _ _ Hst0 Hn) as [H|H].
     + left. apply in_or_app; auto.
     + destruct (P _ (or_introl H)); [auto|left; apply in_or_app; auto].
@@ -210,7 +217,7 @@ Lemma items_upd_neq x s s' v ms ck dn y :
 Proof. intros H. unfold items_of; cbn. apply nth_set_nth_neq. exact H. Qed.
 
 Lemma Inv_handle_gen c x s it ok O y ck' :
-  Inv c x -> nth_error (modes x) s = Some (Passed it) -> stopped (dt x) = false ->
+  Inv c x -> nth_error (modes x) s = Some (Passed it) -> running x = true ->
   dext O (push_log (LAct (s, acted x s) it ok) (dt x)) y ->
   (forall b, In b O -> org b = (s, acted x s)) ->
   (forall o id key tm, In (BEv o id key tm) O -> it = IEv id key tm) ->
@@ -220,7 +227,8 @@ Lemma Inv_handle_gen c x s it ok O y ck' :
   (forall cur m s', ck' = Some (cur, m) -> (s' < n_senders c)%nat -> ~ In s' m -> s' <> s ->
         exists m0, ckpt x = Some (cur, m0) /\ ~ In s' m0) ->
   (forall cur m, ck' = Some (cur, m) -> ~ In s m -> it = IBar cur /\ ok = true) ->
-  Inv c (mkSt (set_nth s Idle (modes x)) (set_nth s (items_of x s ++ [it]) (sent x)) ck' (done x) y).
+  Inv c (mkSt (set_nth s Idle (modes x)) (set_nth s (items_of x s ++ [it]) (sent x)) ck' (done x) y) /\
+  cev_strong (mkSt (set_nth s Idle (modes x)) (set_nth s (items_of x s ++ [it]) (sent x)) ck' (done x) y).
 Proof.
   intros I Hmode Hrun (new & L & E & B & P & A) HO HOev HOtm Hev Hwm K1 K2.
   pose proof (nth_error_lt _ _ _ Hmode) as Hsm.
@@ -256,6 +264,14 @@ Proof.
              (exists bi, e = LApp bi /\ In bi (batch (dt x))) \/ (s' = s /\ j = acted x s)).
   { intros e s' j He Ho. destruct (E _ He) as [(w & ->)|(b & -> & [Hb|Hb])]; [discriminate|eauto|].
     right. cbn in Ho. rewrite (HO _ Hb) in Ho. injection Ho as <- <-. auto. }
+  assert (Hcev : cev_strong x').
+  { (* delivered events are pending or applied *) intros s' j id key tm Hn. cbn [dt x'].
+    assert (Hpend : forall b, In b (batch (dt x)) \/ In b O -> In (LApp b) (log y) \/ In b (batch y)).
+    { intros b Hb. destruct (P _ Hb); [auto|]. left. rewrite L. apply in_or_app. auto. }
+    destruct (Hnthi _ _ _ Hn) as [H|(-> & -> & <-)].
+    + destruct (i_cev _ _ I _ _ _ _ _ Hrun H) as [H1|H1]; [left; apply HLy; exact H1|apply Hpend; auto].
+    + apply Hpend. right. apply Hev. reflexivity. }
+  split; [|exact Hcev].
   constructor.
   - cbn. rewrite set_nth_length. apply (i_len_m _ _ I).
   - cbn. rewrite set_nth_length. apply (i_len_s _ _ I).
@@ -285,12 +301,7 @@ Proof.
   - (* origins in the batch *) intros b s' j Hb Ho. cbn in Hb. destruct (B _ Hb) as [Hb'|Hb'].
     + pose proof (i_obatch _ _ I _ _ _ Hb' Ho). pose proof (Hact s'). lia.
     + rewrite (HO _ Hb') in Ho. injection Ho as <- <-. lia.
-  - (* delivered events are pending or applied *) intros s' j id key tm _ Hn. cbn [dt x'].
-    assert (Hpend : forall b, In b (batch (dt x)) \/ In b O -> In (LApp b) (log y) \/ In b (batch y)).
-    { intros b Hb. destruct (P _ Hb); [auto|]. left. rewrite L. apply in_or_app. auto. }
-    destruct (Hnthi _ _ _ Hn) as [H|(-> & -> & <-)].
-    + destruct (i_cev _ _ I _ _ _ _ _ Hrun H) as [H1|H1]; [left; apply HLy; exact H1|apply Hpend; auto].
-    + apply Hpend. right. apply Hev. reflexivity.
+  - intros s' j id key tm _. apply Hcev.
   - (* watermarks *) intros s' j t Hn. destruct (Hnthi _ _ _ Hn) as [H|(-> & -> & <-)].
     + apply HLy. apply (i_cwm _ _ I _ _ _ H).
     + cbn. rewrite L. apply in_or_app. right. left. rewrite (Hwm t eq_refl). reflexivity.
@@ -338,7 +349,7 @@ Qed.
 
 (* all barriers are in: db.Checkpoint, report, clear *)
 Lemma Inv_complete c z cur m :
-  Inv c z -> stopped (dt z) = false ->
+  Inv c z -> cev_strong z ->
   ckpt z = Some (cur, m) -> (forall s, (s < n_senders c)%nat -> ~ In s m) -> batch (dt z) = [] ->
   Inv c (mkSt (modes z) (sent z) None (done z + 1) (push_log (LCkpt cur (applied (dt z), timers (dt z))) (dt z))).
 Proof.
@@ -350,7 +361,7 @@ Proof.
   - discriminate.
   - intros e s j [<-|He] Ho; [discriminate|]. apply (i_olog _ _ I _ _ _ He Ho).
   - apply (i_obatch _ _ I).
-  - intros s j id key tm _ H. destruct (i_cev _ _ I _ _ _ _ _ Hrun H); [left; right|right]; auto.
+  - intros s j id key tm _ H. destruct (Hrun _ _ _ _ _ H); [left; right|right]; auto.
   - intros s j t H. right. apply (i_cwm _ _ I _ _ _ H).
   - intros s j id key tm [[H|H]|H]; [discriminate| |]; apply (i_faith _ _ I); auto.
   - intros s j k ts [[H|H]|H]; [discriminate| |]; apply (i_ftm _ _ I s j k ts); auto.
@@ -366,7 +377,7 @@ Proof.
       * intros bi j [].
       * intros e j He Ho. pose proof (i_olog _ _ I _ _ _ He Ho). lia.
       * intros e j [].
-      * intros j id key tm Hj Hn. destruct (i_cev _ _ I _ _ _ _ _ Hrun Hn) as [?|Hx]; auto. rewrite Hb in Hx. destruct Hx.
+      * intros j id key tm Hj Hn. destruct (Hrun _ _ _ _ _ Hn) as [?|Hx]; auto. rewrite Hb in Hx. destruct Hx.
       * intros j t Hj Hn. apply (i_cwm _ _ I _ _ _ Hn).
     + injection H as <- H. destruct (i_hist _ _ I _ _ _ _ H) as (Hsnap & b & Hbb). split; auto. exists b. intros s Hs.
       destruct (Hbb s Hs) as (B1 & B2 & B3 & B4 & B5 & B6 & B7 & B8). repeat split; auto.
@@ -378,12 +389,13 @@ Lemma passed_not_reg c x s it cur m :
 Proof. intros I Hm Ec Hn. apply (i_passed _ _ I _ _ Hm). exists cur, m. auto. Qed.
 
 Lemma Inv_handle_bar c x s cid ok y ck' :
-  Inv c x -> nth_error (modes x) s = Some (Passed (IBar cid)) -> stopped (dt x) = false ->
+  Inv c x -> nth_error (modes x) s = Some (Passed (IBar cid)) -> running x = true ->
   dext [] (push_log (LAct (s, acted x s) (IBar cid) ok) (dt x)) y ->
   (forall cur m s', ck' = Some (cur, m) -> (s' < n_senders c)%nat -> ~ In s' m -> s' <> s ->
         exists m0, ckpt x = Some (cur, m0) /\ ~ In s' m0) ->
   (forall cur m, ck' = Some (cur, m) -> ~ In s m -> IBar cid = IBar cur /\ ok = true) ->
-  Inv c (mkSt (set_nth s Idle (modes x)) (set_nth s (items_of x s ++ [IBar cid]) (sent x)) ck' (done x) y).
+  Inv c (mkSt (set_nth s Idle (modes x)) (set_nth s (items_of x s ++ [IBar cid]) (sent x)) ck' (done x) y) /\
+  cev_strong (mkSt (set_nth s Idle (modes x)) (set_nth s (items_of x s ++ [IBar cid]) (sent x)) ck' (done x) y).
 Proof.
   intros I Hm Hrun Hd K1 K2.
   apply (Inv_handle_gen c x s (IBar cid) ok [] y ck' I Hm Hrun Hd); auto.
@@ -394,14 +406,30 @@ Proof.
   - discriminate.
 Qed.
 
-Lemma Inv_handle c x s x' : Inv c x -> step c x (Handle s) = Some x' -> Inv c x'.
+(* the handler failed on the flush in front of the cut: the batch it took out is lost *)
+Lemma Inv_drop c z cur :
+  Inv c z -> ckpt z = Some (cur, []) -> Inv c (mkSt (modes z) (sent z) (ckpt z) (done z) (drop_batch (dt z))).
 Proof.
-  intros I H. cbn in H. destruct (nth_error (modes x) s) as [[| |it]|] eqn:Hmode; try discriminate.
-  destruct (active (dt x)) as [|a0 act] eqn:Eact; [discriminate|].
-  assert (Hrun : stopped (dt x) = false) by (unfold stopped; rewrite Eact; reflexivity).
-  injection H as <-.
+  intros I Ec. destruct I. constructor; cbn [modes sent ckpt done dt drop_batch batch log applied active]; auto.
+  - intros b s j [].
+  - intros s j id key tm Hr. unfold running, failed in Hr. cbn [ckpt] in Hr. rewrite Ec, andb_false_r in Hr. discriminate.
+  - intros s j id key tm [H|[]]. apply i_faith0. auto.
+  - intros s j k ts [H|[]]. apply (i_ftm0 s j k ts). auto.
+  - intros post cid snap pre HL.
+    change post with ([] ++ post). apply cut_ok_mono with (x := z); auto.
+    + intros s. exists []. rewrite app_nil_r. reflexivity.
+    + intros bi s j [].
+    + intros e s j [].
+Qed.
+
+Lemma Inv_handle_any c hf x s it : Inv c x -> running x = true ->
+  nth_error (modes x) s = Some (Passed it) -> Inv c (handle_item c hf x s it).
+Proof.
+  intros I Hrun Hmode.
   pose proof (nth_error_lt _ _ _ Hmode) as Hsm.
   assert (Hsn : (s < n_senders c)%nat) by (rewrite <- (i_len_m _ _ I); exact Hsm).
+  assert (Hstop : stopped (dt x) = false).
+  { unfold running in Hrun. destruct (stopped (dt x)); [discriminate|reflexivity]. }
   unfold handle_item.
   change (length (nth s (sent x) [])) with (acted x s).
   change (nth s (sent x) []) with (items_of x s).
@@ -409,6 +437,28 @@ Proof.
                     exists m0, ckpt x = Some (cur, m0) /\ ~ In s' m0) by (intros; eauto).
   assert (Kno : forall ok cur m, ckpt x = Some (cur, m) -> ~ In s m -> it = IBar cur /\ ok = true).
   { intros ok cur m Ec Hn. exfalso. eapply passed_not_reg; eauto. }
+  (* the three outcomes of the barrier that completes the alignment *)
+  assert (Hlast : forall cid ck0,
+     (forall cur' m0 s', Some (cid, @nil nat) = Some (cur', m0) -> (s' < n_senders c)%nat -> ~ In s' m0 -> s' <> s ->
+          exists m1, ckpt x = Some (cur', m1) /\ ~ In s' m1) ->
+     it = IBar cid -> ck0 = Some (cid, @nil nat) ->
+     let d0 := push_log (LAct (s, acted x s) (IBar cid) true) (dt x) in
+     Inv c (if hf && match batch d0 with [] => false | _ :: _ => true end
+            then mkSt (set_nth s Idle (modes x)) (set_nth s (items_of x s ++ [IBar cid]) (sent x)) ck0 (done x) (drop_batch d0)
+            else if errored d0 (flush None d0)
+                 then mkSt (set_nth s Idle (modes x)) (set_nth s (items_of x s ++ [IBar cid]) (sent x)) ck0 (done x) (flush None d0)
+                 else mkSt (set_nth s Idle (modes x)) (set_nth s (items_of x s ++ [IBar cid]) (sent x)) None (done x + 1)
+                           (push_log (LCkpt cid (applied (flush None d0), timers (flush None d0))) (flush None d0)))).
+  { intros cid ck0 K1 -> -> d0.
+    assert (K2 : forall cur' m0, Some (cid, @nil nat) = Some (cur', m0) -> ~ In s m0 -> IBar cid = IBar cur' /\ true = true).
+    { intros cur' m0 [= <- <-] _. auto. }
+    destruct (hf && _).
+    - (* the handler fails on the flush *)
+      destruct (Inv_handle_bar c x s cid true d0 (Some (cid, [])) I Hmode Hrun (dext_refl _) K1 K2) as (Iz & _).
+      apply (Inv_drop c _ cid Iz). reflexivity.
+    - destruct (Inv_handle_bar c x s cid true (flush None d0) (Some (cid, [])) I Hmode Hrun (flush_dext _ _) K1 K2) as (Iz & Cz).
+      destruct (errored d0 (flush None d0)); [exact Iz|].
+      apply (Inv_complete c _ cid [] Iz Cz); cbn [ckpt dt]; auto. apply flush_none_batch. }
   destruct it as [id key tm|t|cid|].
   - (* keyed event *)
     apply (Inv_handle_gen c x s (IEv id key tm) true [BEv (s, acted x s) id key tm] _ (ckpt x) I Hmode Hrun); auto.
@@ -430,28 +480,16 @@ Proof.
     destruct (ckpt x) as [[cur m]|] eqn:Ec.
     + destruct (cid =? cur) eqn:Eid; cbn [negb].
       * apply N.eqb_eq in Eid. subst cid.
-        assert (K1 : forall mm, (forall y, In y (remove_nat s m) -> In y mm) ->
-                  forall cur' m0 s', Some (cur, mm) = Some (cur', m0) -> (s' < n_senders c)%nat -> ~ In s' m0 -> s' <> s ->
-                  exists m1, Some (cur, m) = Some (cur', m1) /\ ~ In s' m1).
-        { intros mm Hsub cur' m0 s' [= <- <-] Hlt Hn Hne. exists m. split; auto. intros Hin. apply Hn, Hsub.
-          apply in_remove_nat. auto. }
-        assert (K2 : forall mm cur' m0, Some (cur, mm) = Some (cur', m0) -> ~ In s m0 -> IBar cur = IBar cur' /\ true = true).
-        { intros mm cur' m0 [= <- <-] _. auto. }
         destruct (remove_nat s m) as [|r m'] eqn:Er.
         -- (* last barrier *)
-           set (d1 := flush None (push_log (LAct (s, acted x s) (IBar cur) true) (dt x))).
-           apply (Inv_complete c (mkSt (set_nth s Idle (modes x)) (set_nth s (items_of x s ++ [IBar cur]) (sent x))
-                                       (Some (cur, [])) (done x) d1) cur []); cbn [ckpt dt]; auto.
-           2:{ unfold stopped, d1. rewrite active_flush. cbn [push_log active]. rewrite Eact. reflexivity. }
-           ++ apply (Inv_handle_bar c x s cur true d1 (Some (cur, [])) I Hmode Hrun).
-              ** apply flush_dext.
-              ** rewrite Ec. apply K1. auto.
-              ** apply K2.
-           ++ apply flush_none_batch.
+           apply (Hlast cur (Some (cur, []))); auto.
+           intros cur' m0 s' [= <- <-] Hlt _ Hne. exists m. split; auto. intros Hin.
+           assert (Hx : In s' (remove_nat s m)) by (apply in_remove_nat; auto). rewrite Er in Hx. destruct Hx.
         -- apply (Inv_handle_bar c x s cur true _ (Some (cur, r :: m')) I Hmode Hrun).
            ++ apply dext_refl.
-           ++ rewrite Ec. apply K1. auto.
-           ++ apply K2.
+           ++ rewrite Ec. intros cur' m0 s' [= <- <-] Hlt Hn Hne. exists m. split; auto. intros Hin. apply Hn.
+              rewrite <- Er. apply in_remove_nat. auto.
+           ++ intros cur' m0 [= <- <-] _. auto.
       * (* foreign id: rejected *)
         apply (Inv_handle_bar c x s cid false _ (Some (cur, m)) I Hmode Hrun).
         -- apply dext_refl.
@@ -464,22 +502,12 @@ Proof.
                 exists m1, @None (N * list nat) = Some (cur', m1) /\ ~ In s' m1).
       { intros mm Hsub cur' m0 s' [= <- <-] Hlt Hn Hne. exfalso. apply Hn, Hsub. apply in_remove_nat. split; auto.
         apply in_seq. lia. }
-      assert (K2 : forall mm cur' m0, Some (cid, mm) = Some (cur', m0) -> ~ In s m0 -> IBar cid = IBar cur' /\ true = true).
-      { intros mm cur' m0 [= <- <-] _. auto. }
       destruct (remove_nat s (seq 0 (n_senders c))) as [|r m'] eqn:Er.
-      * set (d1 := flush None (push_log (LAct (s, acted x s) (IBar cid) true) (dt x))).
-        apply (Inv_complete c (mkSt (set_nth s Idle (modes x)) (set_nth s (items_of x s ++ [IBar cid]) (sent x))
-                                    (Some (cid, [])) (done x) d1) cid []); cbn [ckpt dt]; auto.
-        2:{ unfold stopped, d1. rewrite active_flush. cbn [push_log active]. rewrite Eact. reflexivity. }
-        -- apply (Inv_handle_bar c x s cid true d1 (Some (cid, [])) I Hmode Hrun).
-           ++ apply flush_dext.
-           ++ rewrite Ec. apply K1. auto.
-           ++ apply K2.
-        -- apply flush_none_batch.
+      * apply (Hlast cid (Some (cid, []))); auto. apply K1. auto.
       * apply (Inv_handle_bar c x s cid true _ (Some (cid, r :: m')) I Hmode Hrun).
         -- apply dext_refl.
         -- rewrite Ec. apply K1. auto.
-        -- apply K2.
+        -- intros cur' m0 [= <- <-] _. auto.
   - (* SourceComplete *)
     apply (Inv_handle_gen c x s IDone true [] _ (ckpt x) I Hmode Hrun); auto.
     + destruct (errored _ _); [apply flush_dext|].
@@ -489,6 +517,25 @@ Proof.
     + intros o k ts [].
     + discriminate.
     + apply Kno.
+Qed.
+
+Lemma step_handle_running x : failed x = false -> (exists a l, active (dt x) = a :: l) -> running x = true.
+Proof. intros Hf (a & l & Ea). unfold running, stopped. rewrite Ea, Hf. reflexivity. Qed.
+
+Lemma Inv_handle c x s x' : Inv c x -> step c x (Handle s) = Some x' -> Inv c x'.
+Proof.
+  intros I H. unfold step in H. destruct (failed x) eqn:Hf; [discriminate|].
+  destruct (nth_error (modes x) s) as [[| |it]|] eqn:Hmode; try discriminate.
+  destruct (active (dt x)) as [|a0 act] eqn:Eact; [discriminate|]. injection H as <-.
+  exact (Inv_handle_any c false x s it I (step_handle_running x Hf (ex_intro _ a0 (ex_intro _ act Eact))) Hmode).
+Qed.
+
+Lemma Inv_handlefail c x s x' : Inv c x -> step c x (HandleFail s) = Some x' -> Inv c x'.
+Proof.
+  intros I H. unfold step in H. destruct (failed x) eqn:Hf; [discriminate|].
+  destruct (nth_error (modes x) s) as [[| |[| |cid|]]|] eqn:Hmode; try discriminate.
+  destruct (active (dt x)) as [|a0 act] eqn:Eact; [discriminate|]. injection H as <-.
+  exact (Inv_handle_any c true x s (IBar cid) I (step_handle_running x Hf (ex_intro _ a0 (ex_intro _ act Eact))) Hmode).
 Qed.
 
 Lemma items_repeat s k ms ck dn y : items_of (mkSt ms (repeat [] k) ck dn y) s = [].
@@ -518,8 +565,8 @@ Qed.
 (* the handler fails on a time-out flush: the batch is lost, the operator stops *)
 Lemma Inv_tfail c x x' : Inv c x -> step c x TimeoutFail = Some x' -> Inv c x'.
 Proof.
-  intros I H. cbn in H. destruct (sinkfault (dt x) || stopped (dt x)); [discriminate|].
-  destruct (inflight (dt x)) as [|t r]; [discriminate|].
+  intros I H. unfold step in H. destruct (sinkfault (dt x) || stopped (dt x) || failed x); [discriminate|].
+  destruct (inflight (dt x)) as [|t r]; [discriminate|]. cbn zeta in H.
   assert (Hsame : forall y, log y = log (dt x) -> batch y = batch (dt x) -> applied y = applied (dt x) ->
                    active y = active (dt x) -> Inv c (set_d x y)).
   { intros y Hl Hb Ha Hact. apply Inv_dext; auto. apply dext_same; auto. }
@@ -528,7 +575,7 @@ Proof.
   - destruct (t =? btoken (dt x)); injection H as <-; [|apply Hsame; auto].
     destruct I. unfold set_d. constructor; cbn [modes sent ckpt done dt batch log applied active]; auto.
     + intros b s j [].
-    + intros s j id key tm Hst. discriminate.
+    + intros s j id key tm Hst. unfold running, stopped in Hst. cbn in Hst. discriminate.
     + intros s j id key tm [H|[]]. apply i_faith0. auto.
     + intros s j k ts [H|[]]. apply (i_ftm0 s j k ts). auto.
     + intros post cid snap pre HL.
@@ -540,13 +587,14 @@ Qed.
 
 Lemma Inv_step c x a x' : Inv c x -> step c x a = Some x' -> Inv c x'.
 Proof.
-  intros I H. destruct a as [s it|s|s| | |s| | |].
+  intros I H. destruct a as [s it|s|s| | |s| | | |s].
+  10:{ eapply Inv_handlefail; eauto. }
   - eapply Inv_gate; eauto.
   - eapply Inv_wake; eauto.
   - eapply Inv_handle; eauto.
   - cbn in H. destruct (armed (dt x)); [|discriminate]. injection H as <-.
     apply Inv_dext; auto. apply dext_same; reflexivity.
-  - cbn in H. destruct (sinkfault (dt x) || stopped (dt x)); [discriminate|].
+  - unfold step in H. destruct (sinkfault (dt x) || stopped (dt x) || failed x); [discriminate|].
     destruct (inflight (dt x)) as [|t r]; [discriminate|]. injection H as <-.
     apply Inv_dext; auto.
     + change (@nil bitem) with (@nil bitem ++ []). eapply dext_trans; [|apply flush_dext]. apply dext_same; reflexivity.
@@ -564,16 +612,18 @@ Definition full (x : st) (s : nat) : list item := items_of x s ++ infl (nth s (m
 Definition gate_item (a : action) (s : nat) : list item :=
   match a with Gate s' it => if Nat.eqb s' s then [it] else [] | _ => [] end.
 
-Lemma handle_item_frame c x s it :
-  modes (handle_item c x s it) = set_nth s Idle (modes x) /\
-  sent (handle_item c x s it) = set_nth s (items_of x s ++ [it]) (sent x).
+Lemma handle_item_frame c hf x s it :
+  modes (handle_item c hf x s it) = set_nth s Idle (modes x) /\
+  sent (handle_item c hf x s it) = set_nth s (items_of x s ++ [it]) (sent x).
 Proof.
   unfold handle_item. destruct it as [id key tm|t|cid|].
   - cbn; auto.
   - cbn; auto.
   - destruct (ckpt x) as [[cur m]|].
-    + destruct (cid =? cur); cbn; auto. destruct (remove_nat s m); cbn; auto.
-    + rewrite N.eqb_refl. cbn. destruct (remove_nat s _); cbn; auto.
+    + destruct (cid =? cur); cbn [negb]; [|cbn; auto]. destruct (remove_nat s m); [|cbn; auto].
+      destruct (hf && _); [cbn; auto|]. destruct (errored _ _); cbn; auto.
+    + rewrite N.eqb_refl. cbn [negb]. destruct (remove_nat s _); [|cbn; auto].
+      destruct (hf && _); [cbn; auto|]. destruct (errored _ _); cbn; auto.
   - cbn. auto.
 Qed.
 
@@ -589,37 +639,50 @@ Qed.
 
 Lemma step_full c x a x' s : Inv c x -> step c x a = Some x' -> a <> Deploy -> full x' s = full x s ++ gate_item a s.
 Proof.
-  intros I H Hnd. destruct a as [s' it|s'|s'| | |s'| | |]; cbn [gate_item]; try congruence.
-  - cbn in H. destruct (nth_error (modes x) s') as [[| |]|] eqn:E; try discriminate. injection H as <-.
+  intros I H Hnd. destruct a as [s' it|s'|s'| | |s'| | | |s']; cbn [gate_item]; try congruence.
+  - unfold step in H. destruct (failed x); [discriminate|].
+    destruct (nth_error (modes x) s') as [[| |]|] eqn:E; try discriminate. injection H as <-.
     pose proof (nth_error_lt _ _ _ E) as Hlt. unfold full, with_mode, items_of; cbn [modes sent].
     destruct (Nat.eqb s' s) eqn:Es.
     + apply Nat.eqb_eq in Es. subst s'. rewrite nth_set_nth_eq by exact Hlt.
       rewrite (nth_of_nth_error _ _ _ Idle E). cbn. destruct (should_park x s); cbn; rewrite app_nil_r; reflexivity.
     + apply Nat.eqb_neq in Es. rewrite nth_set_nth_neq by exact Es. rewrite app_nil_r. reflexivity.
-  - cbn in H. destruct (nth_error (modes x) s') as [[|g it|]|] eqn:E; try discriminate.
+  - unfold step in H. destruct (failed x); [discriminate|].
+    destruct (nth_error (modes x) s') as [[|g it|]|] eqn:E; try discriminate.
     destruct (g <? done x); [|discriminate]. injection H as <-.
     pose proof (nth_error_lt _ _ _ E) as Hlt. unfold full, with_mode, items_of; cbn [modes sent]. rewrite app_nil_r.
     destruct (Nat.eq_dec s' s) as [->|Hne].
     + rewrite nth_set_nth_eq by exact Hlt. rewrite (nth_of_nth_error _ _ _ Idle E). reflexivity.
     + rewrite nth_set_nth_neq by exact Hne. reflexivity.
-  - cbn in H. destruct (nth_error (modes x) s') as [[| |it]|] eqn:E; try discriminate.
+  - unfold step in H. destruct (failed x); [discriminate|].
+    destruct (nth_error (modes x) s') as [[| |it]|] eqn:E; try discriminate.
     destruct (active (dt x)); [discriminate|]. injection H as <-.
     pose proof (nth_error_lt _ _ _ E) as Hlt.
     assert (Hls : (s' < length (sent x))%nat) by (rewrite (i_len_s _ _ I), <- (i_len_m _ _ I); exact Hlt).
-    destruct (handle_item_frame c x s' it) as (Hm & Hs). unfold full, items_of. rewrite Hm, Hs, app_nil_r.
+    destruct (handle_item_frame c false x s' it) as (Hm & Hs). unfold full, items_of. rewrite Hm, Hs, app_nil_r.
     destruct (Nat.eq_dec s' s) as [->|Hne].
     + rewrite !nth_set_nth_eq by auto. rewrite (nth_of_nth_error _ _ _ Idle E). cbn. rewrite app_nil_r. reflexivity.
     + rewrite !nth_set_nth_neq by exact Hne. reflexivity.
   - cbn in H. destruct (armed (dt x)); [|discriminate]. injection H as <-. unfold full. rewrite app_nil_r. reflexivity.
-  - cbn in H. destruct (sinkfault (dt x) || stopped (dt x)); [discriminate|].
+  - unfold step in H. destruct (sinkfault (dt x) || stopped (dt x) || failed x); [discriminate|].
     destruct (inflight (dt x)); [discriminate|]. injection H as <-. unfold full. rewrite app_nil_r. reflexivity.
   - cbn in H. destruct (nth_error (modes x) s') as [[| |]|]; try discriminate. injection H as <-.
     rewrite app_nil_r. reflexivity.
   - cbn in H. destruct (sinkfault (dt x)); [discriminate|]. injection H as <-. unfold full. rewrite app_nil_r. reflexivity.
-  - cbn in H. destruct (sinkfault (dt x) || stopped (dt x)); [discriminate|].
-    destruct (inflight (dt x)); [discriminate|]. rewrite app_nil_r.
+  - unfold step in H. destruct (sinkfault (dt x) || stopped (dt x) || failed x); [discriminate|].
+    destruct (inflight (dt x)); [discriminate|]. rewrite app_nil_r. cbn zeta in H.
     destruct (batch (dt x)); [injection H as <-; reflexivity|].
     destruct (_ =? _); injection H as <-; reflexivity.
+  - unfold step in H. destruct (failed x); [discriminate|].
+    destruct (nth_error (modes x) s') as [[| |[| |cid|]]|] eqn:E; try discriminate.
+    destruct (active (dt x)); [discriminate|]. injection H as <-.
+    pose proof (nth_error_lt _ _ _ E) as Hlt.
+    assert (Hls : (s' < length (sent x))%nat) by (rewrite (i_len_s _ _ I), <- (i_len_m _ _ I); exact Hlt).
+    match goal with |- full ?z s = _ => change z with (handle_item c true x s' (IBar cid)) end.
+    destruct (handle_item_frame c true x s' (IBar cid)) as (Hm & Hs). unfold full, items_of. rewrite Hm, Hs, app_nil_r.
+    destruct (Nat.eq_dec s' s) as [->|Hne].
+    + rewrite !nth_set_nth_eq by auto. rewrite (nth_of_nth_error _ _ _ Idle E). cbn. rewrite app_nil_r. reflexivity.
+    + rewrite !nth_set_nth_neq by exact Hne. reflexivity.
 Qed.
 
 Lemma step_deploy_full c x x' s : step c x Deploy = Some x' -> full x' s = [].
